@@ -14,8 +14,8 @@ pub static DEF: PropDef = PropDef {
     level: "exploration",
     rule: "each case: one input (valid / truncated / mutated / adversarial / random / mid-document) x random configuration (8 tolerance subsets, buffered subsets, capacities that force buffer compaction, size limits) x scripted short-read source. Every Ok item before the first error is checked against the input bytes with the independent reference decoder: the id decoded at the reported offset equals the item's id; the value equals the documented decoding of the payload that follows the header (big-endian unsigned, sign-extended signed, IEEE-754 4/8-byte float, UTF-8, raw bytes for ids outside the specification); the next non-End item starts exactly at header end (masters) or payload end (other elements); an End reports the offset of its matching Start (0 for implied ancestors of a mid-document start); a buffered Full reports the master's start offset, its flattened children are checked against an unbuffered parse of the same bytes, and tiling resumes after the master. distinct = (input kind, config class, structural shape hash); non-trivial iff >= 3 items were checked and the source needed >= 2 reads (buffer offset moved).",
     assumptions: &["reference decoders in refcodec.rs", "items after the first error are not judged", "when the buffered and unbuffered parses disagree structurally (C08's subject) the Full-offset clause is skipped for that case (counted)"],
-    cases_quick: 100_000,
-    cases_thorough: 3_000_000,
+    cases_quick: 1_000_000,
+    cases_thorough: 10_000_000,
     floors: &[("items_checked", 100_000), ("distinct_nontrivial", 2000), ("full_items_checked", 300), ("end_items_checked", 10_000), ("implied_ancestor_ends_checked", 20)],
     exhaustive_note: None,
     run,
